@@ -13,8 +13,11 @@ package sim
 import (
 	"fmt"
 	"net"
+	"os"
+	"path/filepath"
 	"time"
 
+	"github.com/glowlabs-org/gca-backend/client"
 	"github.com/glowlabs-org/gca-backend/server"
 )
 
@@ -84,6 +87,12 @@ func runC08(m *Sim) {
 	cl := w.AddClient("cli0", dev, gca.Pub, servers, start)
 	cap := &c08Capture{first: map[uint32][]byte{}, count: map[uint32]int{}}
 	c08Install(w, cap, "C08")
+	if k := m.C.Weighted("calibration", 4, 1, 1, 1); k > 0 {
+		// The installer's calibration file (multiplier, divider).
+		cal := []string{"", "1\n100\n", "-1\n1\n", "3\n7\n"}[k]
+		must(os.WriteFile(filepath.Join(cl.Dir, client.CTSettingsFile), []byte(cal), 0644))
+		m.Probe("c08.calibration-file")
+	}
 	if err := cl.Start(); err != nil {
 		m.Fail("C08.start", "client", "client does not start: %v", err)
 	}
